@@ -128,7 +128,53 @@ Fixpoint sort_h (l : list hdr) : list hdr :=
   | x :: r => insert_h x (sort_h r)
   end.
 
-Inductive rerr := ERangeMixUp | ECtx | EClosed.
+(** sort.Slice(chunks, ...) by the height of each chunk's first header *)
+Definition first_height (c : list hdr) : N := match c with [] => 0 | h :: _ => h_height h end.
+
+Fixpoint insert_c (x : list hdr) (l : list (list hdr)) : list (list hdr) :=
+  match l with
+  | [] => [x]
+  | y :: r => if first_height x <? first_height y then x :: y :: r else y :: insert_c x r
+  end.
+
+Fixpoint sort_c (l : list (list hdr)) : list (list hdr) :=
+  match l with
+  | [] => []
+  | x :: r => insert_c x (sort_c r)
+  end.
+
+Inductive bres := BOk | BErr | BPanic.
+
+(** verifyChunkBoundaries: the loop; [prev] is chunks[i-1] *)
+Fixpoint boundaries (now drift : Z) (tv : hdr -> hdr -> tvres) (prev : list hdr)
+         (cs : list (list hdr)) : bres :=
+  match cs with
+  | [] => BOk
+  | c :: r =>
+    match prev, c with
+    | [], _ | _, [] => BPanic                (* prev[len(prev)-1], chunks[i][0] *)
+    | _ :: _, u :: _ =>
+      match Verify now drift tv (last prev hdr_nil) u with
+      | Some _ => BErr
+      | None => boundaries now drift tv c r
+      end
+    end
+  end.
+
+Definition is_nil {A} (l : list A) : bool := match l with [] => true | _ => false end.
+
+(** session.verifyChunkBoundaries (an empty chunk would panic at chunks[i][0], in the
+    sort or in the loop; chunks are proved non-empty) *)
+Definition verify_chunk_boundaries (now drift : Z) (tv : hdr -> hdr -> tvres) (from : hdr)
+           (chunks : list (list hdr)) : bres :=
+  if h_nil from then BOk
+  else if existsb is_nil chunks then BPanic
+  else match sort_c chunks with
+       | [] => BOk
+       | c :: r => boundaries now drift tv c r
+       end.
+
+Inductive rerr := ERangeMixUp | ECtx | EClosed | ENotChain.
 
 Inductive result :=
 | ROk (l : list hdr)
@@ -136,13 +182,25 @@ Inductive result :=
 | RPanic
 | RFuel.          (* model artefact: loop fuel exhausted (proved unreachable) *)
 
-(** state of the session: reqCh, peerQueue, running doRequest goroutines, collected headers *)
+(** what the collector returns once it has [amount] headers: the headers sorted by height,
+    or the error of the chunk-boundary verification *)
+Definition finish (now drift : Z) (tv : hdr -> hdr -> tvres) (from : hdr)
+           (coll : list hdr) (chunks : list (list hdr)) : result :=
+  match verify_chunk_boundaries now drift tv from chunks with
+  | BOk => ROk (sort_h coll)
+  | BErr => RErr ENotChain
+  | BPanic => RPanic
+  end.
+
+(** state of the session: reqCh, peerQueue, running doRequest goroutines, collected headers
+    (flat, and as the chunks they arrived in) *)
 Record sess := Sess {
   s_amount : N;
   s_queue : list req;
   s_idle : list N;
   s_flight : list (N * req);
   s_coll : list hdr;
+  s_chunks : list (list hdr);
   s_res : option result       (* Some = GetRangeByHeight has returned *)
 }.
 
@@ -176,7 +234,7 @@ Fixpoint take_flight (p : N) (l : list (N * req)) : option (req * list (N * req)
   end.
 
 Definition set_res (s : sess) (r : result) : sess :=
-  Sess (s_amount s) (s_queue s) (s_idle s) (s_flight s) (s_coll s) (Some r).
+  Sess (s_amount s) (s_queue s) (s_idle s) (s_flight s) (s_coll s) (s_chunks s) (Some r).
 
 (** wrap-around uint64 subtraction as Go computes [req.Amount - uint64(len(h))] *)
 Definition remaining (r : req) (h : list hdr) : N := sub64 (r_amount r) (N.of_nat (length h)).
@@ -192,7 +250,7 @@ Definition step (drift : Z) (tv : hdr -> hdr -> tvres) (maxcap : N) (from : hdr)
     | EDispatch p r =>
       match remove_peer p (s_idle s), remove_req r (s_queue s) with
       | Some idle', Some queue' =>
-        Sess (s_amount s) queue' idle' ((p, r) :: s_flight s) (s_coll s) None
+        Sess (s_amount s) queue' idle' ((p, r) :: s_flight s) (s_coll s) (s_chunks s) None
       | _, _ => s
       end
     | ERespond p now fs =>
@@ -205,7 +263,7 @@ Definition step (drift : Z) (tv : hdr -> hdr -> tvres) (maxcap : N) (from : hdr)
           (* same request back into reqCh; the peer returns to the queue only on NOT_FOUND *)
           Sess (s_amount s) (s_queue s ++ [r])
                (match e with PNotFound => s_idle s ++ [p] | _ => s_idle s end)
-               flight' (s_coll s) None
+               flight' (s_coll s) (s_chunks s) None
         | DOk h =>
           let rem := remaining r h in
           let requeue :=
@@ -220,8 +278,10 @@ Definition step (drift : Z) (tv : hdr -> hdr -> tvres) (maxcap : N) (from : hdr)
           | inl bad => set_res s bad
           | inr rq =>
             let coll' := s_coll s ++ h in
-            Sess (s_amount s) (s_queue s ++ rq) (s_idle s ++ [p]) flight' coll'
-                 (if s_amount s <=? N.of_nat (length coll') then Some (ROk (sort_h coll')) else None)
+            let chunks' := s_chunks s ++ [h] in
+            Sess (s_amount s) (s_queue s ++ rq) (s_idle s ++ [p]) flight' coll' chunks'
+                 (if s_amount s <=? N.of_nat (length coll')
+                  then Some (finish now drift tv from coll' chunks') else None)
           end
         end
       end
@@ -235,13 +295,14 @@ Fixpoint run (drift : Z) (tv : hdr -> hdr -> tvres) (maxcap : N) (from : hdr)
   | ev :: r => run drift tv maxcap from (step drift tv maxcap from s ev) r
   end.
 
-Definition done (peers : list N) (r : result) : sess := Sess 0 [] peers [] [] (Some r).
+Definition done (peers : list N) (r : result) : sess := Sess 0 [] peers [] [] [] (Some r).
 
 (** Exchange.GetRangeByHeight up to the point where the session waits for answers.
     [per] = Params.MaxHeadersPerRangeRequest, [peers] = peerTracker.peers() *)
 Definition get_range (maxcap per : N) (from : hdr) (to : N) (peers : list N) : sess :=
   let start := wrap64 (h_height from + 1) in
-  if to <=? start then done peers (RErr ERangeMixUp)
+  (* nothing follows the maximal height, for which from.Height()+1 wraps around *)
+  if (h_height from =? two64 - 1) || (to <=? start) then done peers (RErr ERangeMixUp)
   else
     let amount := sub64 to start in
     match prepare_requests maxcap start amount per with
@@ -249,7 +310,7 @@ Definition get_range (maxcap per : N) (from : hdr) (to : N) (peers : list N) : s
     | PRFuel => done peers RFuel
     | PROk reqs =>
       if maxcap <? amount then done peers RPanic     (* make([]H, 0, amount) *)
-      else Sess amount reqs peers [] [] None
+      else Sess amount reqs peers [] [] [] None
     end.
 
 Definition GetRangeByHeight (drift : Z) (tv : hdr -> hdr -> tvres) (maxcap per : N)
